@@ -91,6 +91,25 @@ def cases(T):
         return [('result is a unit quaternion', uq(q)), ('from is carried onto the direction of to', AND(parallel(img, t), lt(rz(0), rdot(img, t))))]
     add('O6.setRotation', 'w_q_setrotation{T}', [In('f', 3), In('t', 3), Out('q', 4)], setrot, pre=lambda I: [lt(rz(0), norm2(I['f'])), lt(rz(0), norm2(I['t']))], budget=600, timeout_ms=60000, core=False, tier='thorough',
         bounds='all pairs of non-zero vectors incl. opposite ones', desc='setRotation(from,to): a unit rotation carrying from onto the direction of to (all branches: <90, >90 split, antipodal fallback)')
+    # ---- slerp endpoints (atan2 modelled exactly through sin/cos of its result; the angle itself stays unconstrained, so both sides of the
+    # sinx_over_x small-angle test are explored)
+    def slerp_setup(sym):
+        contracts.install(sym, sym.m); contracts.install_atan2(sym); sym.check_divzero = False
+    def same(a, b): return AND(*[eq(a[i], b[i]) for i in range(4)])
+    def qdot(a, b): return rsum(rmul(a[i], b[i]) for i in range(4))
+    notanti = lambda I: [uq(I['a']), uq(I['b']), NOT(AND(*[eq(I['a'][i], rneg(I['b'][i])) for i in range(4)]))]
+    for t, which in ((0, 'a'), (1, 'b')):
+        add('O7.slerp_endpoint_t%d' % t, 'w_q_slerp_t%d{T}' % t, [In('a', 4), In('b', 4), Out('r', 4)], (lambda which: lambda I, O, X: [('slerp(q1,q2,%s) is the endpoint' % ('0' if which == 'a' else '1'), same(O['r'], I[which]))])(which),
+            pre=notanti, setup=slerp_setup, allow_divzero=True, nvalid=0, budget=200, timeout_ms=20000, desc='slerp(q1,q2,%d) == q%d for unit quaternions that are not antipodal (both the small-angle and the sin(x)/x branch)' % (t, t + 1),
+            bounds='all unit q1, q2 with q1 != -q2')
+    add('O7.slerpShortestArc_endpoint_t0', 'w_q_slerp_shortest_t0{T}', [In('a', 4), In('b', 4), Out('r', 4)], lambda I, O, X: [('slerpShortestArc(q1,q2,0) == q1', same(O['r'], I['a']))],
+        pre=lambda I: [uq(I['a']), uq(I['b']), ne(qdot(I['a'], I['b']), rz(0))], setup=slerp_setup, allow_divzero=True, nvalid=0, budget=200, timeout_ms=20000,
+        desc='slerpShortestArc(q1,q2,0) == q1', bounds='all unit q1, q2 that are not orthogonal in 4-D')
+    add('O7.slerpShortestArc_endpoint_t1', 'w_q_slerp_shortest_t1{T}', [In('a', 4), In('b', 4), Out('r', 4)],
+        lambda I, O, X: [('slerpShortestArc(q1,q2,1) is q2 or -q2, whichever lies within 90 degrees of q1 (never the long way round)',
+                          AND(OR(same(O['r'], I['b']), same(O['r'], [rneg(x) for x in I['b']])), le(rz(0), qdot(O['r'], I['a']))))],
+        pre=lambda I: [uq(I['a']), uq(I['b'])], setup=slerp_setup, allow_divzero=True, nvalid=0, budget=200, timeout_ms=20000,
+        desc='slerpShortestArc(q1,q2,1) is the representative of q2 on q1\'s hemisphere', bounds='all unit q1, q2')
     return cs
 
 
@@ -112,5 +131,5 @@ def build(chk):
             e.add(c)
     chk.assumptions += ['toMatrix33(q1*q2) == toMatrix33(q2)*toMatrix33(q1): the direct query (degree-4 identity modulo two unit constraints) is not decided by z3 in 20 s per entry (diagonal entries are) and is thorough-tier/budgeted; in the quick tier the statement rests on O1 (toMatrix33 is the documented matrix), C05 (operator* is the Hamilton product) and the textbook identity between the two',
                         'Vec3::length() replaced by its contract (C08)', 'unit quaternions are constrained by r^2+|v|^2 == 1 exactly']
-    chk.outside += ['exp(log q) = q, slerp angle linear in t, spline tangent continuity, nearly-opposite accuracy (transcendental facts)', 'slerp/squad/spline endpoint claims and slerpShortestArc: not yet attempted',
+    chk.outside += ['exp(log q) = q, slerp angle linear in t, spline tangent continuity, nearly-opposite accuracy (transcendental facts)', 'slerp for t strictly between the endpoints, squad/spline (angle-addition facts)',
                     'setAxisAngle(axis(), angle()) == +-q (atan2): not yet attempted']
